@@ -464,6 +464,11 @@ def c03_cases(tier, seed):
             continue
         run.append({"id": "e%d" % len(run), "src": gen.PRELUDE + pre + "\nconst v = <%s%s>%s</%s>;\n" % (host, vs, ch, host), "tsx": False,
                     "opts": {"optimize": bool(len(run) % 2)}})
+    # SEVERAL call children in one statement list: temporaries pending for the list itself and nested functions / concise arrows / blocks with
+    # temporaries of their own, in every order (where a temporary is DECLARED decides what a lazily read slot sees)
+    ths = gen.temp_histories(tier)
+    for k, c in enumerate(ths):
+        run.append({"id": c["id"], "src": c["src"], "tsx": False, "opts": [{}, {"optimize": True}, {"enableObjectSlots": False}, {"optimize": True, "transformOn": True}][k % 4 if k % 7 else 2]})
     prof = {"tags": {"bound": 5, "unbound": 3, "member": 2, "this": 1, "html": 2, "KeepAlive": 1, "Fragment": 1, "_Fragment": 1, "custom": 1},
             "w_directive": 1, "directives": {"slots": 5, "show": 1, "custom": 1},
             "children": {"text": 3, "expr": 3, "ident": 5, "call": 5, "empty": 1, "comment": 1, "spread": 1, "element": 4, "fragment": 1, "fn": 2, "objlit": 2},
@@ -471,11 +476,66 @@ def c03_cases(tier, seed):
             "contexts": {"expr-stmt": 3, "const": 3, "fn-body": 2, "arrow-expr": 3, "arrow-block": 2, "assign": 2, "nested-block": 1, "class-method": 1, "export-default": 1, "loop": 2}}
     mods, hist = gen_modules(r, budget(tier, 2500, 60000), prof, std_opts)
     run += mods
-    return [], run, {"rule": "fixtures + product of 7 hosts x 17 child shapes x 4 v-slots forms x 6 syntactic contexts (x option sets; contexts other than the first sampled 1/4 in quick) + %d generated modules biased to component hosts with a sole identifier/call/function/object child" % len(mods),
+    return [], run, {"rule": "fixtures + product of 7 hosts x 17 child shapes x 4 v-slots forms x 6 syntactic contexts (x option sets; contexts other than the first sampled 1/4 in quick) + %d histories of temporaries (5 statements leaving a temporary pending x 16 nested scopes with call children of their own [concise arrows as callback / scoped-slot child / v-slots entry / with a parameter default / nested / async / object property, block arrows, functions, blocks, loops, methods] x 7 kinds of statement list x 8 orders; python-side clause: a slot temporary is declared inside the innermost function that evaluates its call child) + %d generated modules biased to component hosts with a sole identifier/call/function/object child" % (len(ths), len(mods)),
                      "exhaustive": tier != "quick", "exhaustive_part": "hosts x child shapes x v-slots forms x contexts product", "histogram": dict(hist.most_common(40))}
 
 
+def _is_fn_like(n):
+    """a node with parameters and a body of its own (arrow, function, method, accessor, constructor, static block; the `function` record of a class method)"""
+    if n.get("type") == "CatchClause" or "body" not in n:
+        return False
+    return "params" in n or "param" in n or n.get("type") in ("GetterProperty", "StaticBlock")
+
+
+def slot_temporary_scopes(out):
+    """for every temporary assigned inside a generated `_isSlot(t = <call child>)`: (name, is a declaration of that binding located in the body of the
+    innermost USER-written function whose body evaluates the assignment?).  Generated functions (`default: () => [...]`) are transparent; parameter
+    positions belong to the enclosing function (a default value is evaluated per call of the function, the visitor leaves its temporary to the
+    enclosing list: the recorded design property of hoisted temporaries)."""
+    assigned, declared = {}, collections.defaultdict(set)
+    def walk(n, fn):
+        if isinstance(n, list):
+            for x in n:
+                walk(x, fn)
+            return
+        if not isinstance(n, dict):
+            return
+        t = n.get("type")
+        if t == "CallExpression" and _dummy_span(n) and (n.get("callee") or {}).get("type") == "Identifier" and str(n["callee"].get("value", "")).startswith("_isSlot"):
+            a = (n.get("arguments") or [{}])[0].get("expression") or {}
+            left = a.get("left") or {}
+            while left.get("type") == "ParenthesisExpression":
+                left = left.get("expression") or {}
+            if a.get("type") == "AssignmentExpression" and left.get("type") == "Identifier":
+                assigned.setdefault((left.get("value"), left.get("ctxt")), []).append(fn)
+        if t == "VariableDeclarator" and (n.get("id") or {}).get("type") == "Identifier":
+            declared[(n["id"].get("value"), n["id"].get("ctxt"))].add(fn)
+        if _is_fn_like(n) and not _dummy_span(n):
+            for k, v in n.items():
+                walk(v, id(n) if k == "body" else fn)
+            return
+        for v in n.values():
+            walk(v, fn)
+    walk(out, 0)
+    return [(key[0], all(fn in declared.get(key, ()) for fn in fns)) for key, fns in sorted(assigned.items(), key=lambda kv: str(kv[0]))]
+
+
+def c03_post(rec, c, r, d):
+    """python-side clause (binding identity and declaration placement are not in Oracle.slotsJudge's normal form): the wrapped branch of a sole call
+    child reads its temporary LAZILY (`default: () => [_slot]`, when the component renders), so the temporary must be a binding of the innermost
+    function invocation that evaluated the call - declared inside that function's body, not in a function / module around it, where all invocations
+    (list rendering, scoped slot functions) would share one binding and every slot would show the value of the last call"""
+    if os.environ.get("VJX_NO_PY_CLAUSES"):
+        return
+    if rec["oracle"] != "ok" or "out" not in r or r.get("panic") is not None:
+        return
+    bad = [name for name, ok in slot_temporary_scopes(r["out"]) if not ok]
+    if bad:
+        rec["oracle"] = "FAIL:slot-temporary-shared-between-invocations:the temporaries %s of call children are declared outside the innermost user-written function that evaluates the call (its lazily read default slot then sees the value of the LAST invocation)" % bad
+
+
 PROPS["C03"] = {
+    "post": c03_post,
     "theorems": ["C03_no_children", "C03_multiple_wrapped", "C03_wrap_shape", "C03_wrap_vslots_literal", "C03_function_child", "C03_function_child_keeps_vslots",
                  "C03_object_child", "C03_ident_runtime", "C03_ident_disabled", "C03_call_once", "C03_generated_call_wrapped", "C03_helper"],
     "cases": c03_cases,
@@ -725,6 +785,10 @@ PROPS["C12"] = {
 # ---- C13 ---------------------------------------------------------------------------------------------------
 C13_VALUES = ['="s"', "", "={1}", "={[1, 's']}", "={{a: 1}}", "={x}", "={() => 1}", "={[x]}"]
 C13_NAMES = ["class", "style", "key", "ref", "onClick", "onInput", "onUpdate:modelValue", "title", "xlink:href", "on"]
+# names by what `dedupe_props` / mergeProps do with a repetition: dropped (plain), concatenated (class, style, listeners), and names that merely START with
+# `on` (not listeners for Vue: `on` + lower-case letter, `on` itself, `on-x`) or look like the special ones
+C13_REPEAT_NAMES = ["title", "id", "class", "style", "onClick", "onUpdate:modelValue", "once", "only", "online", "on", "on-x", "onboarding", "key", "ref", "modelValue",
+                    "xlink:href", "data-x", "classes", "styles", "On", "innerHTML"]
 C13_SPECIAL = ["{...obj}", "{...{a: x}}", "v-model={[val, x]}", "v-model={val}", "v-foo={x}", "v-show={x}", "v-html={x}", "v-text={x}", "on={{click: fn1}}", "nativeOn={x}"]
 
 
@@ -752,6 +816,27 @@ def c13_cases(tier, seed):
                     o["mergeProps"] = False
                 run.append({"id": "e%d" % len(run), "src": gen.PRELUDE + "const v = <%s %s/>;\n" % (host, " ".join(attrs)), "tsx": False, "opts": o})
                 n_exh += 1
+    # one name written TWICE in a segment (what happens to the second occurrence - dropped, merged into an array, kept - depends on the name), first / second
+    # value constant or dynamic, with something between them and with another source of a positive flag beside them
+    rep_vals = [('="s"', "={x}"), ("={x}", '="s"'), ("={[1, 's']}", "={[x]}"), ("", "={() => 1}"), ("={undefined}", "={y}"), ("={x}", "={y}"), ("={{a: 1}}", "={1}"), ('="s"', "={cls}")]
+    n_rep = 0
+    for ni, name in enumerate(C13_REPEAT_NAMES):
+        for vi, (v1, v2) in enumerate(rep_vals):
+            for bi, between in enumerate(["", " id={y}", " {...obj}", " on={{click: fn1}}"]):
+                for ki, comp in enumerate(["", " title2={z}", " class={cls}", " style={obj} key={k}"]):
+                    for hi, host in enumerate(["div", "Comp"]):
+                        n_rep += 1
+                        if tier == "quick" and bi and (ni + vi + bi + ki + hi) % 4:
+                            continue
+                        o = {"optimize": True}
+                        if (vi + ki) % 4 == 3:
+                            o["mergeProps"] = False
+                        if bi == 3 or (ni + ki) % 5 == 0:
+                            o["transformOn"] = (ni + vi) % 2 == 0
+                        attrs = "%s%s%s %s%s%s" % (name, v1, between, name, v2, comp)
+                        if hi:
+                            attrs = comp.strip() + " " + "%s%s%s %s%s" % (name, v1, between, name, v2)
+                        run.append({"id": "rp%d" % n_rep, "src": gen.PRELUDE + "const v = <%s %s/>;\n" % (host, attrs), "tsx": False, "opts": o})
     # nested component trees for slot flags
     leafs = ["{val}", "{x}", "{f()}", "text", "<i/>", "{...list}", "{...y}", "{cls}{x}", ""]
     for d1, d2, d3 in itertools.product(leafs, repeat=3):
@@ -761,11 +846,71 @@ def c13_cases(tier, seed):
         o = std_opts(rr); o["optimize"] = True; return o
     mods, hist = gen_modules(r, budget(tier, 2000, 50000), GENERAL_PROFILE, o13)
     run += mods
-    return [], run, {"rule": "fixtures + attribute multisets of size <= %d over a 90-symbol alphabet ({class,style,key,ref,onClick,onInput,onUpdate:modelValue,title,xlink:href,on} x {static,boolean,constant literal/array/object,dynamic expr/arrow/array} + spread, object-literal spread, computed-key v-model, v-model, directive, v-show, v-html, v-text, transformOn on/nativeOn) x element/component (%d cases; size 2 sampled 1/2 in quick, size 3 sampled) + 729 nested component trees for slot flags + %d generated modules, all under optimize=true" % (kmax, n_exh, len(mods)),
+    return [], run, {"rule": "fixtures + attribute multisets of size <= %d over a 90-symbol alphabet ({class,style,key,ref,onClick,onInput,onUpdate:modelValue,title,xlink:href,on} x {static,boolean,constant literal/array/object,dynamic expr/arrow/array} + spread, object-literal spread, computed-key v-model, v-model, directive, v-show, v-html, v-text, transformOn on/nativeOn) x element/component (%d cases; size 2 sampled 1/2 in quick, size 3 sampled) + repeated names: 21 names (dropped / concatenated on repetition, real listeners, names that merely start with `on`, look-alikes of class / style / key) written twice x 8 constant-dynamic value pairs x 4 things in between (nothing, attribute, spread, transformOn object) x 4 companions giving a positive flag x element/component [sampled 1/4 in quick beyond nothing-in-between] + 729 nested component trees for slot flags + %d generated modules, all under optimize=true" % (kmax, n_exh, len(mods)),
                      "exhaustive": False, "exhaustive_part": "all multisets of size <= 1 (quick) / <= 2 (thorough)", "histogram": dict(hist.most_common(40))}
 
 
+def _closed_literal(v):
+    """Oracle.specConst on SWC's JSON: a value that cannot differ between renders"""
+    t = (v or {}).get("type")
+    if t in ("StringLiteral", "NumericLiteral", "BooleanLiteral", "NullLiteral", "BigIntLiteral", "RegExpLiteral"):
+        return True
+    if t == "Identifier":
+        return v.get("value") == "undefined"
+    if t == "ArrayExpression":
+        return all(e is not None and not e.get("spread") and _closed_literal(e.get("expression")) for e in v.get("elements", []))
+    if t == "ObjectExpression":
+        return all(p.get("type") == "KeyValueProperty" and (p.get("key") or {}).get("type") != "Computed" and _closed_literal(p.get("value")) for p in v.get("properties", []))
+    return False
+
+
+def uncovered_props(out):
+    """the cover clause of C13 read off the REAL output alone, for every generated vnode call whose props are an object literal with static keys only
+    and whose flag lacks FULL_PROPS: [(prop, flag, dynamic-prop list)] for props whose value can change and that neither the flag (CLASS / STYLE on
+    elements) nor PROPS + the list covers.  Unlike Oracle.c13Pair it needs no denotation of the input, so it also judges elements that are outside
+    the domain of the props denotation (a name written twice: whether the second occurrence is dropped or merged is the implementation's choice)"""
+    bad = []
+    def walk(n):
+        if isinstance(n, list):
+            for x in n:
+                walk(x)
+            return
+        if not isinstance(n, dict):
+            return
+        if n.get("type") == "CallExpression" and _dummy_span(n):
+            args = [a.get("expression") or {} for a in n.get("arguments", []) if not a.get("spread")]
+            if len(args) >= 4 and len(args) == len(n.get("arguments", [])) and args[3].get("type") == "NumericLiteral" and args[1].get("type") == "ObjectExpression":
+                f = int(args[3].get("value") or 0)
+                props = args[1].get("properties", [])
+                keys = [_key_text(p.get("key")) if p.get("type") == "KeyValueProperty" and (p.get("key") or {}).get("type") in ("StringLiteral", "Identifier") else None for p in props]
+                dyn = [(_e.get("expression") or {}).get("value") for _e in (args[4].get("elements", []) if len(args) > 4 and args[4].get("type") == "ArrayExpression" else []) if _e]
+                if f > 0 and not (f // 16) % 2 and all(k is not None for k in keys):
+                    for k, p in zip(keys, props):
+                        if k in ("key", "ref") or _closed_literal(p.get("value")):
+                            continue
+                        # (which hosts count as elements for CLASS / STYLE is the denotation's business: either cover is accepted here)
+                        covered = (k == "class" and (f // 2) % 2 == 1) or (k == "style" and (f // 4) % 2 == 1) or (k in dyn and (f // 8) % 2 == 1)
+                        if not covered:
+                            bad.append((k, f, dyn))
+        for v in n.values():
+            walk(v)
+    walk(out)
+    return bad
+
+
+def c13_post(rec, c, r, d):
+    if os.environ.get("VJX_NO_PY_CLAUSES"):
+        return
+    if rec["oracle"] != "ok" or "out" not in r or r.get("panic") is not None or not (c.get("opts") or {}).get("optimize"):
+        return
+    bad = uncovered_props(r["out"])
+    if bad:
+        k, f, dyn = bad[0]
+        rec["oracle"] = "FAIL:uncovered-prop:prop %s of a generated vnode call can change between renders but flag %d / dynamic props %r do not cover it (read off the real output)" % (k, f, dyn)
+
+
 PROPS["C13"] = {
+    "post": c13_post,
     "theorems": ["C13_flags_allowed", "C13_dynamic_keys_full", "C13_need_patch", "C13_spread_sets_dynamic_keys",
                  "C13_transformOn_sets_dynamic_keys", "C13_plain_monotone", "C13_plain_cover", "C13_plain_cover_component",
                  "C13_props_bit", "C13_class_style_bits", "C13_slot_flag_range", "C13_stack_invariant_push",
@@ -1101,6 +1246,43 @@ C09_LIST_SCOPES = ["function body1() {\n%s\n}", "%s", "const arrow2 = (a) => {\n
                    "function outer12() { 'outer'; const inner = function () {\n%s\n}; 'after inner'; }", "if (y) {\n%s\n} else { 'in else'; }"]
 
 
+# resolveType on and GENUINE calls of Vue's defineComponent: every shape of first argument (object components with / without a name of their own in every
+# key spelling, behind a spread, wrapped; setup functions typed / untyped / named; identifier, spread, nothing) x second argument x the statement the
+# call sits in.  The first run may augment the call; the follow-up run on its output must find nothing left to add.
+C09_DC_FIRST = ["{ setup() { return () => JSX; } }", "{ name: 'Own', render() { return JSX; } }", "{ ...base, setup: () => () => JSX }",
+                "{ props: { a: String }, setup(props) { return () => JSX; } }", "{}", "{ 'name': 'Q', render: () => JSX }", "{ ['name']: nm }",
+                "{ get name() { return 'g'; }, render() { return JSX; } }", "{ name }", "{ setup() { return () => JSX; } } as any", "({ render() { return JSX; } })",
+                "(props: { label: string }) => () => JSX", "function Named(props: { b?: boolean }) { return () => JSX; }",
+                "(props: { a: string } = { a: 'd' }, ctx: SetupContext<{ (e: 'x'): void }>) => () => JSX", "() => () => JSX", "(props) => JSX", "opts", "...args"]
+# NOT in the stream (reported, open): a call WITHOUT arguments. `const X = defineComponent()` becomes `defineComponent({ name: "X" })` on the unchanged tree
+# (the inferred name lands in the FIRST argument, i.e. becomes the component) and a second run gives `defineComponent({ name: "X" }, { name: "X" })`:
+# C09 clauses changed-outside-defineComponent-options and not-idempotent.  Add "" to C09_DC_FIRST once that is decided.
+C09_DC_SECOND = ["", ", {}", ", { name: 'Given' }", ", { props: ['a'] }", ", { inheritAttrs: false }", ", extra", ", { ...extra }"]
+C09_DC_DECL = ["const X = CALL;", "let X = CALL;", "var X = CALL, Y = CALL;", "export const X = CALL;", "export default CALL;", "let X; X = CALL;", "const { a } = CALL;",
+               "const X = wrap(CALL);", "function mk() { const Inner = CALL; return Inner; }", "const X: Component = CALL;", "const X = CALL, Z = <Comp>{f()}</Comp>;"]
+C09_DC_JSX = ['<div class="hello">hi</div>', "null", "<Comp>{f()}</Comp>"]
+C09_DC_OPTS = [{"resolveType": True}, {"resolveType": True, "optimize": True}, {"resolveType": True, "mergeProps": False, "enableObjectSlots": False},
+               {"resolveType": True, "transformOn": True, "pragma": "h"}, {"resolveType": False}]
+
+
+def c09_define_component_cases(tier):
+    out = []
+    n = 0
+    for fi, first in enumerate(C09_DC_FIRST):
+        for si, second in enumerate(C09_DC_SECOND):
+            if (first == "" and second) :
+                continue
+            for di, decl in enumerate(C09_DC_DECL):
+                n += 1
+                if tier == "quick" and si and di and (fi + si + di) % 3:
+                    continue
+                call = "defineComponent(%s%s)" % (first.replace("JSX", C09_DC_JSX[n % 3]), second)
+                src = ("import { defineComponent } from 'vue';\nimport type { SetupContext, Component } from 'vue';\nimport { Comp } from './comps';\n"
+                       "const base = {}, nm = 'n', name = 'S', opts = {}, extra = {}, args = [];\n" + decl.replace("CALL", call) + "\n")
+                out.append({"id": "dc%d" % n, "src": src, "tsx": True, "opts": dict(C09_DC_OPTS[n % 5 if n % 4 == 0 else 0])})
+    return out
+
+
 def c09_cases(tier, seed):
     r = gen.Rng(seed)
     run = corpus_cases("C09")
@@ -1134,6 +1316,8 @@ def c09_cases(tier, seed):
                 n_rt += 1
                 src = imp + "\n" + sh.replace("CALL", call) + "\n"
                 run.append({"id": "rt%d" % n_rt, "src": src, "tsx": True, "opts": {"resolveType": True, "optimize": bool(n_rt % 2)}})
+    dcs = c09_define_component_cases(tier)
+    run += dcs
     # JSX that leaves a temporary pending for its scope, next to JSX-free code of every arrow/function shape
     n_tmp = 0
     for tj in C09_TEMP_JSX:
@@ -1163,7 +1347,7 @@ def c09_cases(tier, seed):
         g = gen.Gen(r, {"jsx_in_expr": 0})
         parts = [gen.PRELUDE] + [r.pick(SURROUND) % g.expr(0, allow_jsx=False) for _ in range(1 + r.below(4))]
         run.append({"id": "f%d" % i, "src": "\n".join(parts) + "\n", "tsx": False, "opts": std_opts(r)})
-    return [], run, {"rule": "JSX-free corpus of %d real files on disk (the 81 fixture outputs, the repo's wasm.test.ts, SWC's runtime helper modules and stateright's UI script from the cargo registry) under 4 option sets; fixtures; %d modules with JSX embedded in try/catch, labelled blocks, switch, classes with fields/accessors/static blocks, object methods, generators, destructuring, default parameters, optional chaining, TS interfaces/enums/namespaces/generics; %d modules with resolveType on in which a parameter, inner function, inner const, class member, loop or catch binding, object method or another module's export is merely NAMED defineComponent (x 5 import situations x 3 typed setup functions); 4 JSX statements that leave a temporary pending x 9 JSX-free neighbours (concise arrows in every position) x 5 scopes x both orders; 3 statements needing `let _slot` / a captured copy x 16 JSX-free statement kinds (directive-like string statements, other literal statements, empty, debugger, hoisted declarations, labels, nested lists with their own strings) x 8 arrangements (before, after, between, twice) x 14 kinds of statement list (function, arrow, block, case, method, static block, try, loop, namespace, accessor, generator, nested function, if) [lists other than the function body sampled 1/4 in quick]; generated JSX-free modules; and EVERY output of the first phase is fed back as input (idempotence)" % (len(corpus), n, n_rt),
+    return [], run, {"rule": "JSX-free corpus of %d real files on disk (the 81 fixture outputs, the repo's wasm.test.ts, SWC's runtime helper modules and stateright's UI script from the cargo registry) under 4 option sets; fixtures; %d modules with JSX embedded in try/catch, labelled blocks, switch, classes with fields/accessors/static blocks, object methods, generators, destructuring, default parameters, optional chaining, TS interfaces/enums/namespaces/generics; %d modules with resolveType on in which a parameter, inner function, inner const, class member, loop or catch binding, object method or another module's export is merely NAMED defineComponent (x 5 import situations x 3 typed setup functions); %d modules with resolveType on and GENUINE calls of Vue's defineComponent: 18 shapes of first argument (object components with and without a name of their own in every key spelling / behind a spread / wrapped, typed, untyped and named setup functions, identifier, spread) x 7 second arguments x 11 statements holding the call (const / let / var with two calls / export / default export / assignment / destructuring / wrapped / inner function / annotated / beside JSX), JSX or none inside [sampled 1/3 in quick beyond the first row and column]; 4 JSX statements that leave a temporary pending x 9 JSX-free neighbours (concise arrows in every position) x 5 scopes x both orders; 3 statements needing `let _slot` / a captured copy x 16 JSX-free statement kinds (directive-like string statements, other literal statements, empty, debugger, hoisted declarations, labels, nested lists with their own strings) x 8 arrangements (before, after, between, twice) x 14 kinds of statement list (function, arrow, block, case, method, static block, try, loop, namespace, accessor, generator, nested function, if) [lists other than the function body sampled 1/4 in quick]; generated JSX-free modules; and EVERY output of the first phase is fed back as input (idempotence)" % (len(corpus), n, n_rt, len(dcs)),
                      "histogram": dict(hist.most_common(30))}
 
 
@@ -1485,6 +1669,11 @@ def c06_cases(tier, seed):
                 body = ctx.replace("%s", jsx)
                 src = gen.PRELUDE + before + "\n" + body + "\n" + after + "\n"
                 run.append({"id": "e%d" % len(run), "src": src, "tsx": ts, "opts": {"optimize": bool(n % 2), "transformOn": True, "enableObjectSlots": n % 7 != 0}})
+    # HISTORIES: several lowerings that need a temporary in ONE statement list - pending for the list itself, then a nested scope that declares (and
+    # flushes) temporaries of its own, then the list again - in every order and in every kind of list (numbering / reuse of generated names)
+    ths = gen.temp_histories(tier)
+    for k, c in enumerate(ths):
+        run.append({"id": c["id"], "src": c["src"], "tsx": False, "opts": [{}, {"optimize": True, "transformOn": True}, {"optimize": True}, {"mergeProps": False}][k % 4]})
     prof = dict(PROPS_PROFILES["C03"])
     prof["contexts"] = {"expr-stmt": 3, "const": 3, "fn-body": 3, "arrow-expr": 3, "arrow-block": 2, "assign": 2, "nested-block": 2, "class-method": 2,
                         "export-default": 1, "loop": 2, "class-field": 3, "default-param": 3}
@@ -1492,11 +1681,86 @@ def c06_cases(tier, seed):
     prof["n_stmts"] = [(2, 4), (3, 3), (4, 2)]
     mods, hist = gen_modules(r, budget(tier, 2000, 50000), prof, std_opts)
     run += mods
-    return [], run, {"rule": "fixtures + product of 9 lowerings that need a helper/temporary (call child, identifier child, fragments, directives, transformOn, v-model, element-valued attribute, `$event` target) x 25 syntactic contexts (module level, function/arrow bodies, default parameters of functions and arrows, class fields/static fields/methods/accessors/static blocks, loops with and without block, if/else, switch cases, nested blocks, object methods, try/catch, labels, exports, nested functions, namespaces, conditionals, sequences) x 10 sibling statements before/after (other functions/arrows, assignments, user declarations named _createVNode/_slot/_isSlot/_Fragment/$event, other JSX) [siblings sampled 1/4 in quick] + %d generated modules biased to temporaries in nested contexts" % len(mods),
+    return [], run, {"rule": "fixtures + product of 9 lowerings that need a helper/temporary (call child, identifier child, fragments, directives, transformOn, v-model, element-valued attribute, `$event` target) x 25 syntactic contexts (module level, function/arrow bodies, default parameters of functions and arrows, class fields/static fields/methods/accessors/static blocks, loops with and without block, if/else, switch cases, nested blocks, object methods, try/catch, labels, exports, nested functions, namespaces, conditionals, sequences) x 10 sibling statements before/after (other functions/arrows, assignments, user declarations named _createVNode/_slot/_isSlot/_Fragment/$event, other JSX) [siblings sampled 1/4 in quick] + %d histories of temporaries (5 statements leaving a temporary pending x 16 nested scopes with temporaries of their own x 7 kinds of statement list x 8 orders such as pending-nested-pending) + %d generated modules biased to temporaries in nested contexts; python-side clauses: no statement list declares one generated binding twice, no generated temporary is assigned at two sites" % (len(ths), len(mods)),
                      "histogram": dict(hist.most_common(30))}
 
 
+def generated_binding_collisions(out):
+    """(declared twice, assigned twice): bindings (name + syntax context) that ONE statement list / module body declares more than once with at least one
+    of the declarations inserted by the transform; generated `let` temporaries (declarator without initializer in an inserted declaration) that are
+    assigned at more than one site (an assignment belongs to the innermost enclosing list that declares the name: shadowing is resolved)"""
+    twice, assigns = [], collections.Counter()
+    def declared_names(pat, acc):
+        if isinstance(pat, dict):
+            if pat.get("type") == "Identifier":
+                if "ctxt" in pat:
+                    acc.append((pat.get("value"), pat.get("ctxt")))
+                return
+            for k, v in pat.items():
+                if k not in ("init", "right") and isinstance(v, (dict, list)):
+                    declared_names(v, acc)
+        elif isinstance(pat, list):
+            for x in pat:
+                declared_names(x, acc)
+    def stmt_list(stmts):
+        seen, gen_lets = {}, set()
+        for st in stmts:
+            if isinstance(st, dict) and st.get("type") == "ExportDeclaration":
+                st = st.get("declaration") or {}
+            if isinstance(st, dict) and st.get("type") == "VariableDeclaration" and st.get("kind") in ("let", "const"):
+                g = _dummy_span(st)
+                for dcl in st.get("declarations", []):
+                    names = []
+                    declared_names(dcl.get("id"), names)
+                    for nm in names:
+                        if nm in seen and (g or seen[nm]):
+                            twice.append(nm[0])
+                        seen[nm] = seen.get(nm, False) or g
+                    if g and dcl.get("init") is None:
+                        gen_lets.update(names)
+        return gen_lets
+    def walk(n, frames):
+        if isinstance(n, list):
+            if n and all(isinstance(x, dict) and str(x.get("type", "")).endswith(("Statement", "Declaration")) for x in n):
+                lets = stmt_list(n)
+                if lets:
+                    frames = frames + [(id(n), lets)]
+            for x in n:
+                walk(x, frames)
+        elif isinstance(n, dict):
+            if n.get("type") == "AssignmentExpression" and n.get("operator") == "=":
+                left = n.get("left") or {}
+                while left.get("type") == "ParenthesisExpression":
+                    left = left.get("expression") or {}
+                if left.get("type") == "Identifier":
+                    key = (left.get("value"), left.get("ctxt"))
+                    for fid, lets in reversed(frames):
+                        if key in lets:
+                            assigns[(fid, key)] += 1
+                            break
+            for v in n.values():
+                walk(v, frames)
+    walk(out, [])
+    return sorted(set(twice)), sorted(set(key[0] for (fid, key), k in assigns.items() if k > 1))
+
+
+def c06_post(rec, c, r, d):
+    """python-side clauses (Oracle.scopeJudge asks whether every use HAS a declaration; it does not ask whether two generated names are one binding):
+    a generated name must not collide with another generated name - no statement list may declare the same generated binding twice (`let _slot, _slot`
+    is not even a program), and two lowerings must not write one temporary (each `_slot` is assigned by exactly one `_isSlot(_slot = ...)`)"""
+    if os.environ.get("VJX_NO_PY_CLAUSES"):
+        return
+    if rec["oracle"] != "ok" or "out" not in r or r.get("panic") is not None:
+        return
+    twice, shared = generated_binding_collisions(r["out"])
+    if twice:
+        rec["oracle"] = "FAIL:generated-binding-declared-twice:one statement list declares the generated binding(s) %s more than once (same name AND syntax context: renaming cannot separate them)" % twice
+    elif shared:
+        rec["oracle"] = "FAIL:generated-temporary-assigned-twice:the generated temporaries %s are written by more than one lowering (two elements share one binding)" % shared
+
+
 PROPS["C06"] = {
+    "post": c06_post,
     "theorems": ["drainInto_clears", "drainInto_shape", "C06_stmts_scoped", "C06_stmts_result", "C06_arrow_params_outward", "C06_fresh_distinct",
                  "isGenBind_fresh", "C06_module_declares_everything", "C06_helper_declared_when_used"],
     "cases": c06_cases,
@@ -1612,14 +1876,14 @@ def c10_cases(tier, seed):
         stmt = "const s%d = %s;" % (i, g.element(0))
         o = std_opts(r)
         o.pop("pragma", None)
-        pre = [r.pick(C10_PREFIX[:9] + C10_PREFIX[11:]) for _ in range(r.below(3))]
+        pre = [r.pick(C10_PREFIX[:9] + C10_PREFIX[11:] + C10_DYN_OTHER) for _ in range(r.below(3))]
         pre = [p for p in pre if p not in ("cls = 1; cls = 2;", "list = []; fn1 = null;")]
-        suf = [r.pick(C10_PREFIX[:9] + C10_PREFIX[11:]) for _ in range(r.below(2))]
+        suf = [r.pick(C10_PREFIX[:9] + C10_PREFIX[11:] + C10_DYN_OTHER) for _ in range(r.below(2))]
         a = {"id": "ra%d" % i, "src": gen.PRELUDE + stmt + "\n", "tsx": False, "opts": o}
         b = {"id": "rb%d" % i, "src": gen.PRELUDE + "\n".join(pre) + "\n" + stmt + "\n" + "\n".join(suf) + "\n", "tsx": False, "opts": o}
         run += [a, b]
         pairs.append({"id": "r%d" % i, "mode": "c10:%d:%d" % (npre, npre + len(pre)), "a": a["id"], "b": b["id"]})
-    return [], run, {"rule": "pair oracle on the real code: 12 JSX statements (sole identifier/call children, Fragment/_Fragment tags, fragments, spreads, v-slots, arrows, KeepAlive, transformOn + v-model, function bodies) transformed ALONE and between 20 prefixes x 2 suffixes; 15 tags of different kinds sharing a name or last segment (div / motion.div / a.b.div, input / Form.input, Comp / ui.Comp, ...) x 2 shapes, each alone vs. before and after each other tag; (assignments to same-named variables, function/arrow bodies with other JSX needing temporaries, fragment uses, user imports of Fragment/createVNode/h from 'vue', directives, transformOn, loops, classes, shadowing parameters) + %d generated statements between random distractors; the lowered statement must be identical up to renaming of generated identifiers; + HISTORIES of length > 1: 12 statements x (4 module-level JSX needing a temporary x 8 nested functions / arrows / blocks / methods / loops with and without temporaries of their own) x 6 arrangements before and after the statement [sampled 1/2 in quick]; python-side clause: a module-level temporary of the statement is mentioned by no other statement (as when alone)" % budget(tier, 500, 12000),
+    return [], run, {"rule": "pair oracle on the real code: 12 JSX statements (sole identifier/call children, Fragment/_Fragment tags, fragments, spreads, v-slots, arrows, KeepAlive, transformOn + v-model, function bodies) transformed ALONE and between 20 prefixes x 2 suffixes; 15 tags of different kinds sharing a name or last segment (div / motion.div / a.b.div, input / Form.input, Comp / ui.Comp, ...) x 2 shapes, each alone vs. before and after each other tag; (assignments to same-named variables, function/arrow bodies with other JSX needing temporaries, fragment uses, user imports of Fragment/createVNode/h from 'vue', directives, transformOn, loops, classes, shadowing parameters) + %d generated statements between random distractors; the lowered statement must be identical up to renaming of generated identifiers; + HISTORIES of length > 1: 12 statements x (4 module-level JSX needing a temporary x 8 nested functions / arrows / blocks / methods / loops with and without temporaries of their own) x 6 arrangements before and after the statement [sampled 1/2 in quick]; python-side clause: a module-level temporary of the statement is mentioned by no other statement (as when alone); + state that outlives a JSX tree: 12 statements whose slot flags depend on locally bound identifier children (direct, nested, beside text, spread, unbound, in fragments / arrows / functions, beside v-slots) x 12 other trees that are marked dynamic (identifier / spread children at the root or nested, element / component / fragment / custom-element roots, in statements, functions, arrows, classes, attribute values) x 4 arrangements x 3 option sets with the hints on and off [sampled in quick]" % budget(tier, 500, 12000),
                      "pairs": pairs}
 
 
@@ -1856,7 +2120,7 @@ def c18_post(rec, c, r, d):
             rec["oracle"] = "FAIL:merged-declarations-carry-defaults:%s: the declarations handed to mergeDefaults already carry a `default` for %s (not written for this call)" % (where, carrying)
             return
 
-PROPS["C16"] = {"theorems": ['C16_literal', 'C16_alias', 'C16_paren', 'C16_partial_required_flags', 'C16_partial_sets_optional', 'C16_pick_omit_partition', 'C16_required_iff_not_optional', 'C16_imported_type_reported', 'C16_unknown_global_reported', 'C16_unsupported_construct_reported', 'aliasHook_registers', 'C16_registry_from_whole_module', 'resolveElements_eq_members', 'propFold_mems', 'C16_grammar'], "cases": c16_cases, "nontrivial": _has_dc,
+PROPS["C16"] = {"theorems": ['C16_literal', 'C16_alias', 'C16_paren', 'C16_partial_required_flags', 'C16_partial_sets_optional', 'C16_pick_omit_partition', 'C16_required_iff_not_optional', 'C16_imported_type_reported', 'C16_unknown_global_reported', 'C16_unsupported_construct_reported', 'aliasHook_registers', 'C16_registry_from_whole_module', 'resolveElements_eq_members', 'propFold_mems', 'C16_grammar', 'C16_spec_registry_is_the_models', 'C16_merged_interface_keeps_extends', 'C16_interface_extends', 'C16_extends_parent_with_arguments', 'C16_extends_qualified_reported'], "cases": c16_cases, "nontrivial": _has_dc,
                 "explanation": "oracle: the set-theoretic meaning of the annotated props type over the WHOLE module's declarations (TypeSpec.propsOfType) = the keys and `required` flags of the injected props; a type outside the grammar must be reported"}
 PROPS["C17"] = {"theorems": ['C17_keyword_table', 'C17_structural_table', 'C17_literal_table', 'C17_builtin_class', 'C17_union_order', 'inferRuntime_eq_rt', 'rt_sound', 'C17_soundness', 'C17_emitted_no_stricter', 'C17_soundness_emitted', 'C17_null_kept', 'C17_boolean_string_order'], "cases": c17_cases, "nontrivial": _has_dc,
                 "explanation": "oracle: the JavaScript constructors of the declared type (TypeSpec.ctorsOfType; any/unknown = no check) = those of the emitted `type`, Boolean/String order kept"}
